@@ -61,6 +61,19 @@ Theorem C04_decision_sees : forall eval, extensional eval -> forall fixed G orde
   | None => if mem n (input_names G ri) then Some (input_value n inp) else None
   end.
 Proof. intros eval _. exact (decision_sees eval). Qed.
+(* a decision service returns its output decisions' values (one output: the value; several: a context of them), the
+   encapsulated and output decisions being evaluated on the input context the service builds *)
+Theorem C04_service_outputs : forall eval, extensional eval -> forall fixed G order id name ins indecs encs outs inp out,
+  topo_ok G order = true -> In id order -> find id G = Some (NSvc name ins indecs encs outs) ->
+  let step := spec_step eval fixed G order in
+  let e3 := service_input G step ins indecs inp in
+  let results := zip (zip [] (dec_binds G step encs e3)) (dec_binds G step outs e3) in
+  step KSvc id inp out =
+  match dec_names G outs with
+  | [n] => match lookup n results with Some v => set name v out | None => out end
+  | ons => set name (VCtx (fold_left (fun acc n => match lookup n results with Some v => set n v acc | None => acc end) ons [])) out
+  end.
+Proof. exact service_outputs. Qed.
 (* the evaluator used by the correspondence check meets the assumption, so the theorems apply to what is compared with the code *)
 Theorem C04_teval_ext : extensional teval.
 Proof. exact teval_ext_svc. Qed.
@@ -99,6 +112,7 @@ Print Assumptions C04_irrelevant_inputs.
 Print Assumptions C04_spec_fixpoint.
 Print Assumptions C04_decision_scope.
 Print Assumptions C04_decision_sees.
+Print Assumptions C04_service_outputs.
 Print Assumptions C04_teval_ext.
 Print Assumptions C04_refines_teval.
 Print Assumptions C04_irrelevant_inputs_teval.
